@@ -1,0 +1,51 @@
+//go:build verif
+
+package hdrhist
+
+// Accessors used only by the verification harness (build tag "verif").
+// They expose the bucket geometry and the index arithmetic so that they
+// can be compared directly with the model, not only through quantiles.
+
+// VerifGeometry is the bucket geometry computed by New.
+type VerifGeometry struct {
+	UnitMagnitude               int64
+	SubBucketHalfCountMagnitude int32
+	SubBucketHalfCount          int32
+	SubBucketMask               int64
+	SubBucketCount              int32
+	BucketCount                 int32
+	CountsLen                   int32
+	LenCounts                   int
+}
+
+// VerifGeometry returns the bucket geometry of the histogram.
+func (h *Histogram) VerifGeometry() VerifGeometry {
+	return VerifGeometry{
+		UnitMagnitude:               h.unitMagnitude,
+		SubBucketHalfCountMagnitude: h.subBucketHalfCountMagnitude,
+		SubBucketHalfCount:          h.subBucketHalfCount,
+		SubBucketMask:               h.subBucketMask,
+		SubBucketCount:              h.subBucketCount,
+		BucketCount:                 h.bucketCount,
+		CountsLen:                   h.countsLen,
+		LenCounts:                   len(h.counts),
+	}
+}
+
+// VerifBucketIndex exposes getBucketIndex.
+func (h *Histogram) VerifBucketIndex(v int64) int32 { return h.getBucketIndex(v) }
+
+// VerifSubBucketIdx exposes getSubBucketIdx.
+func (h *Histogram) VerifSubBucketIdx(v int64, idx int32) int32 { return h.getSubBucketIdx(v, idx) }
+
+// VerifCountsIndexFor exposes countsIndexFor.
+func (h *Histogram) VerifCountsIndexFor(v int64) int { return h.countsIndexFor(v) }
+
+// VerifLowestEquivalentValue exposes lowestEquivalentValue.
+func (h *Histogram) VerifLowestEquivalentValue(v int64) int64 { return h.lowestEquivalentValue(v) }
+
+// VerifHighestEquivalentValue exposes highestEquivalentValue.
+func (h *Histogram) VerifHighestEquivalentValue(v int64) int64 { return h.highestEquivalentValue(v) }
+
+// VerifBitLen exposes bitLen.
+func VerifBitLen(x int64) int64 { return bitLen(x) }
